@@ -22,9 +22,11 @@ theorem idf_source_arg_ge_one (n df : Nat) (h : df ≤ n) :
   simp only [ScoreOps.add, ScoreOps.sub, ScoreOps.div, ScoreOps.one, ScoreOps.ofQ]
   have h1 : (0 : ℝ) ≤ (n : ℝ) - (df : ℝ) := sub_nonneg.mpr (Nat.cast_le.mpr h)
   have h0 : (0 : ℝ) ≤ (df : ℝ) := Nat.cast_nonneg df
-  have h2 : (0 : ℝ) ≤ ((n : ℝ) - (df : ℝ) + ((1 : ℤ) : ℝ) / ((2 : ℕ) : ℝ)) / ((df : ℝ) + ((1 : ℤ) : ℝ) / ((2 : ℕ) : ℝ)) := by
-    apply div_nonneg <;> norm_num <;> linarith
-  linarith
+  -- shape: 1 ≤ <quotient> + 1 with a quotient of two sums that are ≥ 0 (whatever the positive constants are)
+  apply le_add_of_nonneg_left
+  apply div_nonneg
+  · exact add_nonneg h1 (by norm_num)
+  · exact add_nonneg h0 (by norm_num)
 
 /-- … so the idf of the source formula is never negative there (the `idf` field of `TuningWF`) -/
 theorem idf_source_nonneg (n df : Nat) (h : df ≤ n) : 0 ≤ sourceIdf n df :=
